@@ -249,6 +249,27 @@ def make_error_model(lw, rng, allow_loss=True):
     elif r < 0.8:
         em.phase_offset = d.TopHat(-0.2, 0.2)
         shape.append("phase_tophat")
+    if rng.random() < 0.2:
+        # two quantities given EQUAL BUT DISTINCT distribution objects (or one shared object): each quantity still has to
+        # follow the seed
+        kind = str(rng.choice(["tophat", "gauss", "gauss_bounded"]))
+
+        def mk():
+            if kind == "tophat":
+                return d.TopHat(0.0, 0.1)
+            if kind == "gauss":
+                return d.Gaussian(0.05, 0.02)
+            return d.Gaussian(0.05, 0.05, 0.0, 1.0)
+        first = mk()
+        second = first if rng.random() < 0.25 else mk()
+        if allow_loss and rng.random() < 0.6:
+            em.loss, em.phase_offset = first, second
+            shape.append("loss_and_phase_" + ("share_one_" if second is first else "hold_equal_") + kind)
+        else:
+            em.bs_reflectivity, em.phase_offset = d.TopHat(0.45, 0.55), d.TopHat(0.45, 0.55)
+            if second is first:
+                em.phase_offset = em.bs_reflectivity
+            shape.append("reflectivity_and_phase_" + ("share_one_" if second is first else "hold_equal_") + "tophat")
     return em, tuple(shape)
 
 
